@@ -110,6 +110,11 @@ TIter == Step(/\ Ev.op = "iter"
               /\ Ev.ids = IdsAbove(AbsIter(db, Ev.f), Ev.q)
               /\ UNCHANGED vars)
 
+Prefix(s, n) == SubSeq(s, 1, IF Len(s) < n THEN Len(s) ELSE n)
+TIterN == Step(/\ Ev.op = "iterN"
+               /\ Ev.ids = Prefix(IdsAbove(AbsIter(db, Ev.f), Ev.q), Ev.n)
+               /\ UNCHANGED vars)
+
 TBlock == Step(/\ Ev.op = "block"
                /\ Ev.id \in DOMAIN db.blocks
                /\ Ev.bytes = BlockBytes(db.blocks[Ev.id])
@@ -122,7 +127,7 @@ TParse == Step(/\ Ev.op = "parse"
 
 TraceInit == Init /\ l = 1
 TraceNext == TReset \/ TOpen \/ TAppend \/ TAppendFail \/ TPop \/ TPopFail \/ TFinish \/ TClose
-             \/ TPrune \/ TRead \/ TIter \/ TBlock \/ TParse
+             \/ TPrune \/ TRead \/ TIter \/ TIterN \/ TBlock \/ TParse
 TraceSpec == TraceInit /\ [][TraceNext]_tvars
 
 (* invariants cheap enough to evaluate after every real step *)
